@@ -171,7 +171,7 @@ func Registry() []*Spec {
 		Quick: map[string]int{}, Thorough: map[string]int{},
 		Covers: []string{"first-ok", "first-failed"}, UnitDepth: 5,
 		AllowUnsupported: []string{"(reflect.Value).", "reflect."},
-		Note: "two-call histories on oj.Parser, gen.Parser, sen.Parser, oj.Validator, oj.Tokenizer and the pooled oj.Parse / sen.Parse (sync.Pool contract stub: Get returns the instance Put last): first call = 11 state-setting prefixes + one symbolic byte (or two symbolic bytes) through Parse / ParseReader(1-byte reads) / Parse(NumConvFloat64) / Parse(callback) / Unmarshal; second call = 9 documents through Parse or ParseReader; compared with a fresh instance (error-ness, value, position), earlier result unchanged"})
+		Note: "two-call histories on oj.Parser, gen.Parser, sen.Parser, oj.Validator, oj.Tokenizer, sen.Tokenizer and the pooled oj.Parse / sen.Parse (sync.Pool contract stub: Get returns the instance Put last): first call = 11 state-setting prefixes + one symbolic byte (or two symbolic bytes) through Parse / ParseReader(1-byte reads) / Parse(NumConvFloat64) / Parse(callback) / Unmarshal; second call = 9 documents through Parse or ParseReader; compared with a fresh instance (error-ness, value, position), earlier result unchanged"})
 	add(Spec{Property: "C07", Name: "VerifC07_Writers", Pkg: "asm",
 		Quick: map[string]int{}, Thorough: map[string]int{"SLEN": 2, "KLEN": 2},
 		Covers: []string{"done"}, UnitDepth: 4,
